@@ -77,7 +77,7 @@ def make(sym, pos):
         fields = ["plaintiff", "defendant", "resolved_case_name_short", "resolved_case_name"]
         names = sorted(name(n) for n in sym["nm"])
         md = {f: n for f, n in zip(fields[pos % 2:] + fields[:pos % 2], names)}
-        md["pin_cite"] = "7"
+        md["pin_cite"] = "7" if pos % 3 else None       # (a reference found through markup emphasis has no pin cite)
         return ReferenceCitation(CaseReferenceToken("Name at 7", s, e), pos, metadata=md)
     if k == "id":
         p = sym["pin"]
